@@ -327,15 +327,19 @@ def dedup : List String → List String
   | [] => []
   | x :: xs => x :: (dedup xs).filter (· != x)
 
+/-- Number label sets 1,2,… in list order. -/
+def renumber (L : List (List (String × String))) : List Series :=
+  L.zipIdx.map fun (ls, i) => ({ ref := i + 1, labels := ls } : Series)
+
 /-- Head: refs are assigned 1,2,… in creation order, `lvs` grows in first-occurrence order. -/
 def mkHead (lsets : List (List (String × String))) : Index :=
-  let series := lsets.zipIdx.map fun (ls, i) => ({ ref := i + 1, labels := ls } : Series)
-  { series, lvs := fun name => dedup (series.filterMap fun s => s.labels.lookup name) }
+  { series := renumber lsets,
+    lvs := fun name => dedup ((renumber lsets).filterMap fun s => s.labels.lookup name) }
 
 /-- Block: series are written in label order (refs increase in that order), values are enumerated sorted. -/
 def mkBlock (lsets : List (List (String × String))) : Index :=
-  let sorted := sortByLabels (lsets.map fun ls => ({ ref := 0, labels := ls } : Series))
-  let series := sorted.zipIdx.map fun (s, i) => ({ ref := i + 1, labels := s.labels } : Series)
-  { series, lvs := fun name => sortS (dedup (series.filterMap fun s => s.labels.lookup name)) }
+  let sorted := (sortByLabels (lsets.map fun ls => ({ ref := 0, labels := ls } : Series))).map (·.labels)
+  { series := renumber sorted,
+    lvs := fun name => sortS (dedup ((renumber sorted).filterMap fun s => s.labels.lookup name)) }
 
 end Prom.Postings
